@@ -245,5 +245,14 @@ def check(chk):
                 e = ast.parse(k, mode='eval').body
                 if v and isinstance(e, ast.Call) and src(e.func) == 'partitioner.endswith' and isinstance(e.args[0], ast.Constant):
                     pairs[e.args[0].value] = src(n.ast.value)
+    if not pairs:
+        # the table as data: for suffix, token_class in ((<suffix>, <class>), ...): if partitioner.endswith(suffix): break   (else: no token map)
+        from ..sem import resolve as _res08
+        for lp_ in [n for n in body_walk(rb) if isinstance(n, ast.For) and isinstance(n.target, ast.Tuple) and len(n.target.elts) == 2]:
+            it_ = _res08(rb, lp_.iter)
+            sfx, tcl = src(lp_.target.elts[0]), src(lp_.target.elts[1])
+            tests_ = [x for x in ast.walk(lp_) if isinstance(x, ast.If) and src(x.test) == 'partitioner.endswith(%s)' % sfx and any(isinstance(y, ast.Break) for y in x.body)]
+            if isinstance(it_, (ast.Tuple, ast.List)) and tests_ and tcl == 'token_class' and all(isinstance(e_, ast.Tuple) and len(e_.elts) == 2 and isinstance(e_.elts[0], ast.Constant) for e_ in it_.elts):
+                pairs = dict((e_.elts[0].value, src(e_.elts[1])) for e_ in it_.elts)
     chk.judge(pairs == ref.PARTITIONER_TOKEN, 'C08.token', rb, 'partitioner name -> token class table equals the reference', 'partitioner table is %s' % pairs)
     chk.require('C08.const', 8)
